@@ -3,7 +3,10 @@
    counting abstraction whose invariant Apalache proves for unbounded numbers of calls, commands and clock
    values (NfdRegInd): every step of NfdReg is a step of NfdRegInd (or leaves its variables unchanged) under
    the map below - calls are counted per section of the coroutine, the semaphore becomes its counter, the wire
-   is seen through its last command.  Checked by TLC on the bounded configurations of C17 stage A. *)
+   is seen through its last command.  A cancelled call (pc "cancelled") is counted nowhere: CancelWaiting /
+   CancelSleeping / CancelSent of NfdReg are CancelWait / CancelSleep / CancelSent of the abstraction (the waiter
+   leaves the count `waiting`, the holder leaves its section and the semaphore counter goes up); LateReply is a
+   stuttering step.  Checked by TLC on the bounded configurations of C17 stage A. *)
 EXTENDS NfdReg
 
 Cnt(S) == Cardinality({c \in Calls : pc[c] \in S})
